@@ -668,6 +668,19 @@ class Emitter:
         return len(self.lines)  # 1-based number of the NEXT line is len+1
 
 
+BARE_ITEMS = False   # print a negative literal / a unary minus that is a list item without parentheses
+
+
+def pitem(x):
+    """an element of an argument list, tuple or array"""
+    if BARE_ITEMS:
+        if x[0] == "lit" and isinstance(x[2], int) and not isinstance(x[2], bool) and x[2] < 0:
+            return str(x[2])
+        if x[0] == "neg":
+            return "-%s" % pexpr(x[2])
+    return pexpr(x)
+
+
 def pexpr(e, em=None, top=False):
     """expression -> single-line source text (blocks are printed inline with ';')."""
     k = e[0]
@@ -703,29 +716,29 @@ def pexpr(e, em=None, top=False):
         return "(%s)" % s if not top else s
     if k == "call":
         names = e[4] if len(e) > 4 and e[4] else (None,) * len(e[3])
-        return "%s(%s)" % (e[2], LSEP.join(pexpr(a) if nm is None else "%s = %s" % (nm, pexpr(a)) for a, nm in zip(e[3], names)))
+        return "%s(%s)" % (e[2], LSEP.join(pitem(a) if nm is None else "%s = %s" % (nm, pexpr(a)) for a, nm in zip(e[3], names)))
     if k == "calll":
-        return "%s(%s)" % (pexpr(e[2]), LSEP.join(pexpr(a) for a in e[3]))
+        return "%s(%s)" % (pexpr(e[2]), LSEP.join(pitem(a) for a in e[3]))
     if k == "lam":
         ps = LSEP.join("%s: %s" % (n, ann(t)) for n, t in e[2])
         body = pexpr(e[3]) if e[3][0] != "block" else pblock_inline(e[3])
         return "((%s) -> %s)" % (ps, body) if not top else "(%s) -> %s" % (ps, body)
     if k == "tuple":
-        return "(" + LSEP.join(pexpr(x) for x in e[2]) + ")"
+        return "(" + LSEP.join(pitem(x) for x in e[2]) + ")"
     if k == "array":
-        return "[" + LSEP.join(pexpr(x) for x in e[2]) + "]"
+        return "[" + LSEP.join(pitem(x) for x in e[2]) + "]"
     if k == "struct":
-        return "%s(%s)" % (e[2], LSEP.join(pexpr(x) for x in e[3]))
+        return "%s(%s)" % (e[2], LSEP.join(pitem(x) for x in e[3]))
     if k == "variant":
         if not e[4]:
             return "%s.%s" % (e[2], e[3])
-        return "%s.%s(%s)" % (e[2], e[3], LSEP.join(pexpr(x) for x in e[4]))
+        return "%s.%s(%s)" % (e[2], e[3], LSEP.join(pitem(x) for x in e[4]))
     if k == "field":
         return "%s.%s" % (pexpr(e[2]), e[3])
     if k == "index":
         return "%s[%s]" % (pexpr(e[2]), pexpr(e[3]))
     if k == "method":
-        return "%s.%s(%s)" % (pexpr(e[2]), e[3], LSEP.join(pexpr(a) for a in e[4]))
+        return "%s.%s(%s)" % (pexpr(e[2]), e[3], LSEP.join(pitem(a) for a in e[4]))
     if k == "try":
         return "%s?" % pexpr(e[2])
     if k == "unwrap":
@@ -733,7 +746,7 @@ def pexpr(e, em=None, top=False):
     if k == "str":
         return "ToString.str(%s)" % pexpr(e[2])
     if k == "hcall":
-        return "%s(%s)" % (e[2], LSEP.join(pexpr(a) for a in e[3]))
+        return "%s(%s)" % (e[2], LSEP.join(pitem(a) for a in e[3]))
     raise ValueError(k)
 
 
